@@ -44,6 +44,7 @@ type Engine struct {
 	recDefs     map[*Term]*Term
 	recFns      map[string]*PureFn
 	frozenTabs  map[*ssa.Global]*frozenTab
+	frozenMaps  map[*ssa.Global]*frozenTab
 	Fuel        int
 	Tier        string
 	keepingCall bool
@@ -388,6 +389,10 @@ func (e *Engine) runFunc(fn *ssa.Function, args []Value, st *State, parent *fram
 }
 
 func (e *Engine) runBlock(fr *frame, b *ssa.BasicBlock, pred *ssa.BasicBlock, st *State, k cont) {
+	// a dry run (mod-set discovery) only explores the loop body: stop where the path leaves the loop
+	if d := fr.dry; d != nil && d.li != nil && fr.depth == d.depth && b.Parent() == d.li.head.Parent() && b != d.li.head && !d.li.body[b] {
+		return
+	}
 	// loop handling
 	if li := fr.loops[b]; li != nil {
 		if pred != nil && li.body[pred] && fr.cuts[b] != nil {
@@ -1226,9 +1231,30 @@ func (e *Engine) lookup(fr *frame, st *State, x *ssa.Lookup) Value {
 		e.boundsOblig(fr, st, i, s.Len, x.Pos())
 		return Scalar{T: e.loadStrByte(st, s, i)}
 	}
+	mt := x.X.Type().Underlying().(*types.Map)
+	// lookup in a frozen package-level map with a constant literal: closed term
+	if ld, ok := x.X.(*ssa.UnOp); ok && ld.Op == token.MUL {
+		if g, ok := ld.X.(*ssa.Global); ok {
+			if tab := e.frozenMap(g); tab != nil {
+				k := e.get(fr, x.Index).(Scalar).T
+				kw, _, _ := intInfo(mt.Key())
+				vw, _, _ := intInfo(mt.Elem())
+				r := c.Const(vw, 0)
+				var hits []*Term
+				for _, key := range tab.keys {
+					hit := c.Eq(k, c.Const(kw, uint64(key)))
+					hits = append(hits, hit)
+					r = c.Ite(hit, c.Const(vw, tab.vals[key]), r)
+				}
+				if x.CommaOk {
+					return Tuple{[]Value{Scalar{T: r}, Scalar{T: c.Or(hits...)}}}
+				}
+				return Scalar{T: r}
+			}
+		}
+	}
 	// map lookup: abstract
 	e.noteAbstract("map")
-	mt := x.X.Type().Underlying().(*types.Map)
 	var as []*Term
 	v := c.Fresh(mt.Elem(), "maplookup", false, &as)
 	for _, a := range as {
@@ -1511,6 +1537,111 @@ type frozenTab struct {
 	keys []int64
 	vals map[int64]uint64
 	def  uint64
+}
+
+// frozenMap extracts the literal of a package-level map[int-kind]int-kind that is declared frozen: the
+// variable is stored once, in its package initialiser, with a map built there from constant entries; every
+// other use in the program is a load whose value is only ever looked up (checked over the whole program).
+func (e *Engine) frozenMap(g *ssa.Global) *frozenTab {
+	if t, ok := e.frozenMaps[g]; ok {
+		return t
+	}
+	if e.frozenMaps == nil {
+		e.frozenMaps = map[*ssa.Global]*frozenTab{}
+	}
+	e.frozenMaps[g] = nil
+	if g.Pkg == nil || !e.Frozen[g.Pkg.Pkg.Path()+"."+g.Name()] {
+		return nil
+	}
+	mt, ok := g.Type().Underlying().(*types.Pointer).Elem().Underlying().(*types.Map)
+	if !ok {
+		return nil
+	}
+	if _, _, ok := intInfo(mt.Key()); !ok {
+		return nil
+	}
+	if _, _, ok := intInfo(mt.Elem()); !ok {
+		return nil
+	}
+	if e.frozenCheck(g) != "" {
+		return nil
+	}
+	// every load of the variable outside the initialiser is only looked up
+	check := func(fn *ssa.Function) bool {
+		for _, b := range fn.Blocks {
+			for _, in := range b.Instrs {
+				ld, ok := in.(*ssa.UnOp)
+				if !ok || ld.X != ssa.Value(g) {
+					continue
+				}
+				if refs := ld.Referrers(); refs != nil {
+					for _, r := range *refs {
+						switch r.(type) {
+						case *ssa.Lookup, *ssa.DebugRef:
+						default:
+							return false
+						}
+					}
+				}
+			}
+		}
+		return true
+	}
+	for _, fn := range e.P.Funcs {
+		if !check(fn) {
+			return nil
+		}
+		for _, an := range fn.AnonFuncs {
+			if !check(an) {
+				return nil
+			}
+		}
+	}
+	init := g.Pkg.Func("init")
+	if init == nil {
+		return nil
+	}
+	var mk *ssa.MakeMap
+	for _, b := range init.Blocks {
+		for _, in := range b.Instrs {
+			if s, ok := in.(*ssa.Store); ok && s.Addr == ssa.Value(g) {
+				m, ok := s.Val.(*ssa.MakeMap)
+				if !ok || mk != nil {
+					return nil
+				}
+				mk = m
+			}
+		}
+	}
+	if mk == nil || mk.Referrers() == nil {
+		return nil
+	}
+	tab := &frozenTab{vals: map[int64]uint64{}}
+	for _, r := range *mk.Referrers() {
+		switch u := r.(type) {
+		case *ssa.MapUpdate:
+			kc, ok1 := u.Key.(*ssa.Const)
+			vc, ok2 := u.Value.(*ssa.Const)
+			if !ok1 || !ok2 || u.Map != ssa.Value(mk) {
+				return nil
+			}
+			k := kc.Int64()
+			if _, dup := tab.vals[k]; !dup {
+				tab.keys = append(tab.keys, k)
+			}
+			tab.vals[k] = uint64(vc.Int64())
+		case *ssa.Store:
+			if u.Addr != ssa.Value(g) {
+				return nil
+			}
+		case *ssa.DebugRef:
+		default:
+			return nil
+		}
+	}
+	sort.Slice(tab.keys, func(i, j int) bool { return tab.keys[i] < tab.keys[j] })
+	e.frozenMaps[g] = tab
+	return tab
 }
 
 // frozenTable extracts the contents of a package-level integer array that is declared frozen and is
